@@ -240,7 +240,7 @@ def extract(extract_v, outdir, timeout=600):
     """Compile coq/Extract/<extract_v> with cwd=outdir so the extracted .ml/.mli land there."""
     os.makedirs(outdir, exist_ok=True)
     src = os.path.join(COQ, "Extract", extract_v)
-    rc, out = sh(["coqc", "-Q", COQ, "LV", "-w", "none", "-o", os.path.join(outdir, "extract_tmp.vo"), src], cwd=outdir, timeout=timeout)
+    rc, out = sh(["coqc", "-Q", COQ, "LV", "-w", "none", "-o", os.path.join(outdir, extract_v[:-2] + ".vo"), src], cwd=outdir, timeout=timeout)
     return rc, out
 
 
@@ -264,7 +264,7 @@ LIB_SRCS = ["init.cpp", "hp.cpp", "dhp.cpp", "urcu_gp.cpp", "urcu_sh.cpp", "thre
 
 
 def cxx_flags(hook=True, opt="-O1", extra=()):
-    fl = ["g++", CXXSTD, opt, "-g0", "-pthread", "-mcx16", "-Wno-deprecated-declarations", "-w", "-I" + REPO, "-I" + os.path.join(VERIF, "hooks", "include"), "-I" + os.path.join(VERIF, "harness")]
+    fl = ["g++", CXXSTD, opt, "-g0", "-DNDEBUG", "-pthread", "-mcx16", "-Wno-deprecated-declarations", "-w", "-I" + REPO, "-I" + os.path.join(VERIF, "hooks", "include"), "-I" + os.path.join(VERIF, "harness")]
     if hook:
         fl.append("-D" + GUARD)
     return fl + list(extra)
@@ -309,7 +309,7 @@ class BuildError(Exception):
 def cxx_build(src, exe, hook=True, opt="-O1", extra=(), link_cds=True, timeout=900):
     """Compile one harness TU against /repo's working tree.  Cached by content hash of everything it can see."""
     srcs = [src] if isinstance(src, str) else list(src)
-    key = file_hash(srcs + glob.glob(os.path.join(VERIF, "harness", "*.h")) + glob.glob(os.path.join(VERIF, "hooks", "include", "*", "*"))) + repo_tree_hash() + repr((hook, opt, tuple(extra), link_cds))
+    key = file_hash([__file__]) + file_hash(srcs + glob.glob(os.path.join(VERIF, "harness", "*.h")) + glob.glob(os.path.join(VERIF, "hooks", "include", "*", "*"))) + repo_tree_hash() + repr((hook, opt, tuple(extra), link_cds))
     key = hashlib.sha256(key.encode()).hexdigest()[:20]
     stamp = exe + ".key"
     if os.path.exists(exe) and os.path.exists(stamp) and open(stamp).read() == key:
@@ -371,6 +371,11 @@ class Ctx:
                     self.known_hits.append(signature)
                     print("KNOWN-FINDING: property=%s %s" % (self.id, f.get("what", what)), flush=True)
                 return
+        # one replay per kind of violation is enough: further ones of the same kind are only counted
+        self.what_count = getattr(self, "what_count", {})
+        self.what_count[what] = self.what_count.get(what, 0) + 1
+        if self.what_count[what] > getattr(self, "max_per_what", 1):
+            return
         h = hashlib.sha256(json.dumps(replay_obj, sort_keys=True, default=str).encode()).hexdigest()[:12]
         path = os.path.join(VERIF, "replays", "%s-%s.json" % (self.id, h))
         replay_obj = dict(replay_obj)
@@ -396,6 +401,7 @@ class Ctx:
         cov = self.coverage
         cov.setdefault("trusted_base", trusted_base)
         cov["known_findings_reported"] = self.known_hits
+        cov["violation_kinds"] = getattr(self, "what_count", {})
         ev = {"property_id": self.id, "tier": self.tier, "seed": self.seed, "level": self.level,
               "coverage": cov, "assumptions": list(extra_assumptions) + self.assumptions,
               "wall_s": round(time.time() - self.t0, 2), "violations": len(self.violations)}
